@@ -629,7 +629,8 @@ def r5_json_codec_features(ctx):
              'compiled or run): the SQL stores keep the state as JSON text and read it back into `serde_json::Value`. The feature set serde_json is '
              'RESOLVED with for that build (features are unified across the graph, so a dependency can switch one on) contains none of the features '
              'that make `Value::deserialize` interpret a magic key inside user data (`arbitrary_precision`, `raw_value`): with one of them `load` does '
-             'not return what `create` / `update` wrote for a state that contains the token.')
+             'not return what `create` / `update` wrote for a state that contains the token. And it contains `float_roundtrip`: the state is read back from JSON text, and '
+             'only the exact float parser returns every f64 as it was written.')
     import json, subprocess
     from ..engine import REPO
     try:
@@ -658,6 +659,9 @@ def r5_json_codec_features(ctx):
     for i in sj:
         feats = sorted(nodes[i].get('features', []))
         ctx.count('serde_json_features_resolved', len(feats))
+        ctx.ob('C13.R5', 'json-codec-feature-required|serde_json|float_roundtrip', 'float_roundtrip' in feats, 'Cargo.lock',
+               'serde_json %s is resolved %s `float_roundtrip`: without it the fast float parser reads some doubles back one ULP off '
+               '(1.0715660391465826e-75 is stored and 1.0715660391465825e-75 is loaded)' % (pk[i]['version'], 'with' if 'float_roundtrip' in feats else 'WITHOUT'))
         for f, what in sorted(MAGIC_TOKEN_FEATURES.items()):
             who = sorted({pk[n]['name'] for n in seen for d in pk[n]['dependencies'] if d['name'] == 'serde_json' and f in d.get('features', [])})
             ctx.ob('C13.R5', 'json-codec-feature|serde_json|%s' % f, f not in feats, 'Cargo.lock',
